@@ -12,8 +12,10 @@ RULE = ("shapes: gen.convex_solid (as ConvexPolyhedron and as Polyhedron copy), 
         "(L/U/frame/steps, as Polyhedron with unit-square faces), prisms over non-convex polygons, planar polygons "
         "(regular/star/comb/lattice, both orientations, default/explicit/opposing normal, random plane in 3-space), "
         "spheres with centres; q: |q|*size in {0} U [1e-3,30] in random directions, exactly along face normals, "
-        "perpendicular to edges, along axes, batches of size 1.. mixing zero / in-plane-zero / generic; density != 1; "
-        "distinct = distinct (shape, q batch); non-trivial = at least one non-zero q")
+        "perpendicular to edges, parallel to edges, along axes, at the ends 1e-3 and 30 of the |q|*size range, batches of "
+        "size 1.. mixing zero / in-plane-zero / generic; density != 1 and omitted; the q argument also as (3,) array, "
+        "nested list, flat list, empty batch (argument glue); in-place histories (centroid / volume / area setters) before "
+        "the call; distinct = distinct (shape, q batch); non-trivial = at least one non-zero q")
 ASSUMPTIONS = [
     "exact Fourier transforms are computed independently of the code's Stokes reduction: tetrahedra/triangles by the "
     "Hermite-Genocchi divided difference of exp (Opitz matrix exponential, self-validated against Gauss-Legendre "
@@ -28,6 +30,14 @@ ASSUMPTIONS = [
     "bound + numerical tolerance, on pairs (special q', q' + small delta)",
     "Polygon/Polyhedron constructors' validity checks are C15; faces of a Polyhedron are given outward "
     "counter-clockwise (C02/C07)",
+    "certificates evaluated exactly (driver, Q mode) on the implementation's own vertex data: FF.triangulationCheck (an ear "
+    "clipping of the polygon has the polygon's edge cycle as boundary chain) and FF.surfaceClosedCheck (the fan triangles of "
+    "vertices[face] form a closed oriented surface) - the hypotheses `hcert` / `hclosed` of the Lean theorems "
+    "polygon_ff_eq_checked_triangulation / polyhedron_ff_eq_checked_tet_integrals; their right-hand sides (sum over the "
+    "ear-clipping triangles / over the cone tetrahedra of the implementation's faces of the exact simplex transforms) are "
+    "evaluated by divided differences and compared with the implementation and with the independent oracle",
+    "the geometric hypotheses of those theorems (unit normals, exact planarity, counter-clockwise faces) hold for the ideal "
+    "real polyhedron; on the floating-point data they hold to rounding and are not checked exactly",
 ]
 EPS = 2.220446049250313e-16
 WIN = 1e-8
@@ -428,20 +438,22 @@ def c12_sphere(rng):
 def c12_qs(rng, ctx, size, normals, edges, quick_max=24, thorough_max=400):
     """a batch of wave vectors from the quantifier's classes; returns (Q, classes)"""
     structured = [["random"], ["zero"], ["zero", "random"], ["normal", "zero", "random"], ["zero", "zero"],
-                  ["normal", "normal", "zero"], ["normal"], ["edgeperp"], ["axis"], ["random", "normal"]]
+                  ["normal", "normal", "zero"], ["normal"], ["edgeperp"], ["axis"], ["random", "normal"],
+                  ["edgepar"], ["range-lo"], ["range-hi"], ["normal", "edgepar", "zero", "range-lo"],
+                  ["zero", "normal"], ["edgeperp", "zero"]]
     if rng.random() < 0.45:
         classes = list(structured[int(rng.integers(len(structured)))])
     else:
         nmax = quick_max if ctx.tier == "quick" else thorough_max
         n = int(np.ceil(np.exp(rng.uniform(0, np.log(nmax)))))
-        pool = ["zero", "random", "random", "random", "normal", "edgeperp", "axis"]
+        pool = ["zero", "random", "random", "random", "normal", "edgeperp", "axis", "edgepar", "range-lo", "range-hi"]
         classes = [pool[int(rng.integers(len(pool)))] for _ in range(n)]
     Q = []
     for idx, c in enumerate(classes):
         k = float(10 ** rng.uniform(-3, np.log10(30))) / size
         if c == "normal" and not len(normals):
             c = "random"
-        if c == "edgeperp" and not len(edges):
+        if c in ("edgeperp", "edgepar") and not len(edges):
             c = "random"
         classes[idx] = c
         if c == "zero":
@@ -456,6 +468,14 @@ def c12_qs(rng, ctx, size, normals, edges, quick_max=24, thorough_max=400):
             e = np.asarray(edges[int(rng.integers(len(edges)))], dtype=float)
             d = np.cross(e, rng.normal(size=3))
             q = k * d / np.linalg.norm(d)
+        elif c == "edgepar":
+            e = np.asarray(edges[int(rng.integers(len(edges)))], dtype=float)
+            q = k * (1 if rng.random() < 0.5 else -1) * e / np.linalg.norm(e)
+        elif c in ("range-lo", "range-hi"):
+            d = rng.normal(size=3)
+            if len(normals) and rng.random() < 0.4:
+                d = np.asarray(normals[int(rng.integers(len(normals)))], dtype=float)
+            q = (1e-3 if c == "range-lo" else 30.0) / size * d / np.linalg.norm(d)
         else:
             q = np.zeros(3)
             q[int(rng.integers(3))] = k * (1 if rng.random() < 0.5 else -1)
@@ -597,6 +617,12 @@ def eval_solid(ctx, case):
                     "amplitude differs from density * integral of exp(-i q.r) over the solid"):
         return
     spec_tie(ctx, case, Q, rho, E, tol)
+    solid_certificate(ctx, cls, case, p, Q, rho, F, E, tol, win, zw)
+    glue_probe(ctx, "polyhedron", case, p,
+               lambda kind, rows, dens: ctx.driver.F("ff.call.polyhedron", ftoks, vol_impl, I(kind), L(list(rows)),
+                                                     *dens_tokens(dens)), Q, rho, tol, near)
+    if case.get("mseed", 0) % 2 == 0:
+        history_solid(ctx, cls, case, Q, rho)
     consequences(ctx, cls, case, Q, rho, F, tol, win,
                  lambda QQ, r: np.array(p.compute_form_factor_amplitude(QQ, density=r), dtype=complex),
                  lambda t: build_solid(case, shift=t), rmax, vol, lambda QQ, t: QQ @ t,
@@ -699,6 +725,218 @@ def continuity(ctx, cls, case, call, specials, measure, rmax, bounds, rho, size)
                  case, {"q0": base[i], "q": pert[i], "F0": Fb[i], "F": Fp[i], "allowed": float((lip + tol + wb + wp)[i])})
 
 
+
+# ===================================================================== argument glue, certificates, histories
+
+
+def dens_tokens(d):
+    return [I(0)] if d is None else [I(1), float(d)]
+
+
+def glue_probe(ctx, cls, case, obj, model_call, Q, rho, tol, near):
+    """B (correspondence) for the argument glue: the q argument as an (N,3) array with density omitted, as a (3,)
+    array, as nested / flat Python lists, as an empty batch — results, lengths and exception kinds against the model's
+    `…Call` functions; C: omitting `density` is the same as `density=1.0`."""
+    rng = np.random.default_rng(case.get("mseed", 0) + 7)
+    if len(Q) > 8:                      # the glue does not depend on the batch size: a few rows of a big batch
+        sel = np.sort(rng.choice(len(Q), size=6, replace=False))
+        Q, tol, near = Q[sel], tol[sel], near[sel]
+    i = int(rng.integers(len(Q)))
+    tol1 = tol / abs(rho)
+    probes = [("arr2-default", 0, Q.copy(), Q, None, tol1, near),
+              ("arr1", 1, Q[i].copy(), Q[i:i + 1], rho, tol[i:i + 1], near[i:i + 1]),
+              ("list2", 2, Q.tolist(), Q, rho, tol, near),
+              ("list1-default", 3, Q[i].tolist(), Q[i:i + 1], None, tol1[i:i + 1], near[i:i + 1]),
+              ("empty", 0, np.zeros((0, 3)), np.zeros((0, 3)), rho, np.zeros(0), np.zeros(0, dtype=bool))]
+    if len(Q) > 6 and case.get("mseed", 0) % 4:
+        probes = [probes[0], probes[1 + int(rng.integers(4))]]
+    for name, kind, qarg, rows, dens, tl, nr in probes:
+        ctx.count("glue:" + name)
+        try:
+            r = obj.compute_form_factor_amplitude(qarg) if dens is None else obj.compute_form_factor_amplitude(qarg, dens)
+            impl = ("ok", np.atleast_1d(np.asarray(r, dtype=complex)))
+        except Exception as e:
+            impl = ("raise", exc_kind(e))
+        try:
+            mod = ("ok", cx(model_call(kind, rows, dens)))
+        except ModelRaise as e:
+            mod = ("raise", e.kind)
+        if np.any(nr):
+            ctx.skipped_near_boundary += 1
+            continue
+        if impl[0] != mod[0] or (impl[0] == "raise" and impl[1] != mod[1]):
+            ctx.disagree("ff.call.%s:%s" % (cls, name), case, {"impl": impl, "model": mod})
+            continue
+        if impl[0] == "ok":
+            a, b = impl[1], mod[1]
+            if a.shape != b.shape:
+                ctx.disagree("ff.call.%s:%s:length" % (cls, name), case, [list(a.shape), list(b.shape)])
+                continue
+            reps = max(1, len(a) // max(1, len(tl))) if len(tl) else 1
+            tt = np.tile(tl, reps) if len(tl) and len(a) == reps * len(tl) else np.full(len(a), float(np.max(tl)) if len(tl) else 0.0)
+            if np.any(np.abs(a - b) > tt):
+                ctx.disagree("ff.call.%s:%s:value" % (cls, name), case, [a, b])
+    # C: density omitted == density 1.0
+    try:
+        a = np.asarray(obj.compute_form_factor_amplitude(Q.copy()), dtype=complex)
+        b = np.asarray(obj.compute_form_factor_amplitude(Q.copy(), density=1.0), dtype=complex)
+        if a.shape != b.shape or not np.array_equal(a, b):
+            ctx.fail("%s.compute_form_factor_amplitude:density-default" % cls,
+                     "omitting density is not the same as density=1.0", case, [a, b])
+    except Exception as e:
+        ctx.fail("%s.compute_form_factor_amplitude:raises" % cls, "raised %s with density omitted" % exc_kind(e), case, repr(e))
+
+
+def polygon_triangles(V, nz):
+    """ear clipping of the simple polygon V (n,3) lying in the plane with unit normal nz: index triples, each oriented
+    like the polygon's own vertex order (so that the triangles' boundary chain is the polygon's edge cycle)"""
+    n = len(V)
+    a = np.array([1.0, 0, 0]) if abs(nz[0]) < 0.8 else np.array([0, 1.0, 0])
+    e1 = np.cross(nz, a)
+    e1 /= np.linalg.norm(e1)
+    e2 = np.cross(nz, e1)
+    p = np.c_[V @ e1, V @ e2]
+    x, y = p[:, 0], p[:, 1]
+    area2 = float(np.sum(x * np.roll(y, -1) - np.roll(x, -1) * y))
+    if area2 > 0:
+        tri = c12_ear_clip(p)
+        return None if tri is None else [list(t) for t in tri]
+    tri = c12_ear_clip(p[::-1])
+    if tri is None:
+        return None
+    return [[n - 1 - t[2], n - 1 - t[1], n - 1 - t[0]] for t in tri]
+
+
+def ft_triangles(tris, n, Q):
+    """sum over triangles of 2*area * exp[z0,z1,z2] with the in-plane wave vector (the right-hand side of the Lean
+    theorem polygon_ff_eq_region_integral evaluated by divided differences)"""
+    T = np.asarray(tris, dtype=float)
+    area2 = np.linalg.norm(np.cross(T[:, 1] - T[:, 0], T[:, 2] - T[:, 0]), axis=1)
+    out = []
+    for q in np.asarray(Q, dtype=float):
+        qp = q - (q @ n) * n
+        out.append(np.sum(area2 * dd_exp(-1j * (T @ qp))))
+    return np.array(out)
+
+
+def polygon_certificate(ctx, case, Vimpl, nz, Q, rho, F, E, tol, win):
+    tri = polygon_triangles(np.asarray(Vimpl, dtype=float), nz)
+    if tri is None:
+        ctx.count("certificate:triangulation:earclip-failed")
+        return
+    tris = [np.array([Vimpl[t[0]], Vimpl[t[1]], Vimpl[t[2]]], dtype=float) for t in tri]
+    ok = ctx.driver.Q("ff.tricheck", L(list(np.asarray(Vimpl, dtype=float))), L(tris))[0]
+    ctx.count("certificate:triangulation:" + ("ok" if ok else "REJECTED"))
+    if not ok:
+        ctx.disagree("ff.tricheck", case, "the exact checker rejected an ear clipping of the implementation's vertices")
+        return
+    E2 = rho * ft_triangles(tris, nz, Q)
+    if np.any(np.abs(E2 - E) > tol):
+        ctx.disagree("theorem-rhs:earclip-triangles-vs-fan-oracle", case, [E2, E])
+    bad = np.abs(F - E2) > tol + 1.05 * win * abs(rho)
+    if np.any(bad):
+        i = int(np.argmax(bad))
+        ctx.fail("Polygon.compute_form_factor_amplitude:value",
+                 "amplitude differs from density * sum over the triangles of a triangulation of the exact triangle transforms",
+                 case, {"i": i, "q": Q[i], "impl": F[i], "exact": E2[i]})
+
+
+def solid_certificate(ctx, cls, case, p, Q, rho, F, E, tol, win, zw):
+    """closed-surface certificate on the implementation's vertices[face] (exact) and the right-hand side of
+    polyhedron_ff_eq_checked_tet_integrals: cone tetrahedra over the fan triangles of the implementation's faces"""
+    V = np.array(p.vertices, dtype=float)
+    faces = [list(map(int, f)) for f in p.faces]
+    r = ctx.driver.Q("ff.surface_closed", L([L(list(V[f])) for f in faces]))
+    ctx.count("certificate:surface-closed:" + ("ok" if r[0] else "REJECTED"))
+    if not r[0]:
+        ctx.fail("%s.faces:closed-oriented-surface" % cls,
+                 "the fan triangles of vertices[face] do not form a closed consistently oriented surface "
+                 "(directed edges do not cancel in pairs)", case, {"n_triangles": r[1]})
+        return
+    apex = V.mean(axis=0)
+    tets = [np.array([apex, V[f[0]], V[f[i]], V[f[i + 1]]]) for f in faces for i in range(1, len(f) - 1)]
+    E3 = rho * ft_tets(tets, Q)
+    if np.any(np.abs(E3 - E) > tol):
+        ctx.disagree("theorem-rhs:cone-over-impl-faces-vs-oracle", case, [E3, E])
+    bad = (np.abs(F - E3) > tol + 1.05 * win * abs(rho)) & ~zw
+    if np.any(bad):
+        i = int(np.argmax(bad))
+        ctx.fail("%s.compute_form_factor_amplitude:value" % cls,
+                 "amplitude differs from density * sum over the cone tetrahedra of the faces of the exact simplex transforms",
+                 case, {"i": i, "q": Q[i], "impl": F[i], "exact": E3[i]})
+
+
+def history_solid(ctx, cls, case, Q, rho):
+    """in-place history (centroid setter, volume setter) before the call: the amplitude must be that of a newly
+    constructed shape with the same vertices and faces"""
+    from coxeter.shapes import ConvexPolyhedron, Polyhedron
+    rng = np.random.default_rng(case.get("mseed", 0) + 11)
+    try:
+        p = build_solid(case)
+        size = gen.diameter(np.array(p.vertices, dtype=float))
+        steps = []
+        for _ in range(int(rng.integers(1, 4))):
+            if rng.random() < 0.5:
+                t = rng.normal(size=3) * size
+                p.centroid = np.array(p.centroid, dtype=float) + t
+                steps.append("centroid")
+            else:
+                s = float(np.exp(rng.uniform(-0.7, 0.7)))
+                p.volume = float(p.volume) * s ** 3
+                steps.append("volume")
+        ctx.count("history:" + "+".join(steps))
+        Fh = np.array(p.compute_form_factor_amplitude(Q.copy(), density=rho), dtype=complex)
+        V = np.array(p.vertices, dtype=float).copy()
+        faces = [list(map(int, f)) for f in p.faces]
+        fresh = ConvexPolyhedron(V) if cls == "ConvexPolyhedron" else Polyhedron(V, faces)
+        Ff = np.array(fresh.compute_form_factor_amplitude(Q.copy(), density=rho), dtype=complex)
+        vol = float(fresh.volume)
+    except Exception as e:
+        ctx.fail("%s.compute_form_factor_amplitude:raises" % cls, "raised %s after an in-place history" % exc_kind(e), case,
+                 repr(e))
+        return
+    rmax = float(np.max(np.linalg.norm(V, axis=1)))
+    geom = tri_geom(fan_tris(V, [list(map(int, f)) for f in fresh.faces]))
+    win, cond, zw, near = solid_bounds(geom, Q, vol, rmax)
+    tolh = 4 * num_tol(vol, cond, Q, rmax, rho) + 2.1 * win * abs(rho)
+    bad = (np.abs(Fh - Ff) > tolh) & ~near
+    if np.any(bad):
+        i = int(np.argmax(bad))
+        ctx.fail("%s.compute_form_factor_amplitude:history" % cls,
+                 "after in-place changes (%s) the amplitude differs from that of a newly constructed shape with the same "
+                 "vertices" % "+".join(steps), case, {"i": i, "q": Q[i], "after_history": Fh[i], "fresh": Ff[i], "steps": steps})
+
+
+def history_polygon(ctx, case, make, V, normal, Q, rho, tol, win, near):
+    """in-place history of a Polygon (centroid / area setters) against a newly constructed polygon with the resulting
+    vertices"""
+    rng = np.random.default_rng(case.get("mseed", 0) + 13)
+    if case.get("mseed", 0) % 2:
+        return
+    try:
+        p = make(V, normal)
+        size = gen.diameter(np.asarray(V, dtype=float))
+        t = rng.normal(size=3) * size
+        nrm = np.array(p.normal, dtype=float)
+        t = t - (t @ nrm) * nrm if rng.random() < 0.5 else t
+        p.centroid = np.array(p.centroid, dtype=float) + t
+        s = float(np.exp(rng.uniform(-0.5, 0.5)))
+        p.area = float(p.area) * s * s
+        ctx.count("history:polygon:centroid+area")
+        Fh = np.array(p.compute_form_factor_amplitude(Q.copy(), density=rho), dtype=complex)
+        W = np.array(p.vertices, dtype=float).copy()
+        Ff = np.array(make(W, normal).compute_form_factor_amplitude(Q.copy(), density=rho), dtype=complex)
+    except Exception as e:
+        ctx.fail("Polygon.compute_form_factor_amplitude:raises", "raised %s after an in-place history" % exc_kind(e), case,
+                 repr(e))
+        return
+    fac = max(1.0, s * s) * (1 + float(np.linalg.norm(t)) / max(size, 1e-300))
+    if np.any((np.abs(Fh - Ff) > 8 * tol * fac + 2.1 * win * abs(rho) * fac) & ~near):
+        ctx.fail("Polygon.compute_form_factor_amplitude:history",
+                 "after in-place changes (centroid, area) the amplitude differs from that of a new polygon with the same "
+                 "vertices", case, [Fh, Ff])
+
+
 def eval_polygon(ctx, case):
     from coxeter.shapes import Polygon
     cls = "Polygon"
@@ -769,6 +1007,11 @@ def eval_polygon(ctx, case):
         okq = np.einsum("ij,ij->i", qpar, qpar) > WIN
         if np.any(np.abs(S - E)[okq] > tol[okq]):
             ctx.disagree("spec.ff.polygon:vs-oracle", case, [S, E])
+    polygon_certificate(ctx, case, np.array(p.vertices, dtype=float), nz, Q, rho, F, E, tol, win)
+    glue_probe(ctx, "polygon", case, p,
+               lambda kind, rows, dens: ctx.driver.F("ff.call.polygon", L(list(np.array(p.vertices, dtype=float))), n_impl,
+                                                     I(kind), L(list(rows)), *dens_tokens(dens)), Q, rho, tol, near)
+    history_polygon(ctx, case, make, V, normal, Q, rho, tol, win, near)
     # orientation independence: same region, other vertex direction / normal conventions
     for verts, nrm, tag in ((V[::-1], None, "reversed-default"), (V[::-1], nz, "reversed+n"), (V[::-1], -nz, "reversed-n"),
                             (V, nz, "same+n"), (V, -nz, "same-n"), (np.roll(V, -1, axis=0), normal, "rolled")):
@@ -838,6 +1081,19 @@ def eval_sphere(ctx, case):
     S = cx(ctx.driver.F("spec.ff.ball", r, c, L(list(Q)), rho))       # Lean Spec.ballFT against scipy's Bessel form
     if np.any(np.abs(S - E) > tol):
         ctx.disagree("spec.ff.ball:vs-oracle", case, [S, E])
+    glue_probe(ctx, "sphere", case, s,
+               lambda kind, rows, dens: ctx.driver.F("ff.call.sphere", r, c, I(kind), L(list(rows)), *dens_tokens(dens)),
+               Q, rho, tol, near)
+    try:                                              # in-place history: setters, then the same as a new Sphere
+        s2 = Sphere(1.0, np.zeros(3))
+        s2.centroid = c.copy()
+        s2.volume = vol
+        Fh = np.array(s2.compute_form_factor_amplitude(Q.copy(), density=rho), dtype=complex)
+        if np.any((np.abs(Fh - F) > 4 * tol) & ~near):
+            ctx.fail("Sphere.compute_form_factor_amplitude:history",
+                     "a sphere brought to (radius, centre) by the setters gives another amplitude than a new one", case, [Fh, F])
+    except Exception as e:
+        ctx.fail("Sphere.compute_form_factor_amplitude:raises", "raised %s after setters" % exc_kind(e), case, repr(e))
     call = lambda QQ, d: np.array(s.compute_form_factor_amplitude(QQ, density=d), dtype=complex)   # noqa: E731
     consequences(ctx, cls, case, Q, rho, F, tol, win, call, lambda t: Sphere(r, c + t), rmax, vol,
                  lambda QQ, t: QQ @ t, lambda t: (win,))
@@ -936,7 +1192,7 @@ def run(ctx):
         ctx.case(case)
         eval_case(ctx, case)
     mix = (["convex"] * 5 + ["box"] * 2 + ["voxel"] * 2 + ["prism"] * 2 + ["polygon"] * 6 + ["sphere"] * 3)
-    n = ctx.budget(240, 3000)
+    n = ctx.budget(200, 1800)
     for i in range(n):
         case = make_case(ctx, mix[i % len(mix)])
         ctx.case(case, nontrivial=bool(np.any(np.array(case["q"]) != 0)))
